@@ -29,6 +29,9 @@ def main():
         sys.stdout = io.StringIO()
         try:
             res = mod.run_case(case, tier)
+            if getattr(mod, "UNINIT_COUNTERFACTUAL", False) and any(v.get("key") is None for v in res.get("violations", [])):
+                from . import diagnose
+                diagnose.attribute_uninit(mod, case, res, tier)
         except BaseException as e:  # harness/oracle bug: never a verdict about Polar
             if isinstance(e, (KeyboardInterrupt, SystemExit)):
                 raise
